@@ -120,7 +120,7 @@ static double krel_at(const c11::Proj& P, const Cfg& c, double lat) {
   Q u = P.unit_scale(p); if (!c11::fin(u) || u <= 0) return 1e-12;
   double rc = std::fabs(c11::dbl(P.kap * u * P.E.a * P.E.m(p) / P.n)) / (c.cls == 2 ? c11::dbl(P.kap * P.kap) : 1.0);
   double kk = c11::dbl(P.kap * u);
-  return 1e-12 + 4 * 10e-9 * (c.a / 6378137.0) * std::fmax(1.0, kk) / rc;
+  return 1e-12 + 4 * (10e-9 * (c.a / 6378137.0) * std::fmax(1.0, kk) + 1e-14 * c.a) / rc;
 }
 
 // ---------------------------------------------------------------------------------------------------------------
@@ -149,7 +149,7 @@ static Reg r_pt("pt", [](const Args& a) {
       if (w.kok && std::isfinite(ok_) && ok_ < 1e30) {
         // "errors in the convergence and scale are consistent with 10 nm": relative 10 nm / (distance from the apex of the cone)
         double rc = (P.cyl || P.n == 0) ? INFINITY : std::fabs(ok_ * c.a * c11::dbl(P.E.m(c11::sc_deg(lat)) / P.n)) / (c.cls == 2 ? c11::dbl(P.kap * P.kap) : 1.0);
-        double krel = 1e-12 + 4 * 10e-9 * (c.a / 6378137.0) * std::fmax(1.0, ok_) / rc;
+        double krel = 1e-12 + 4 * (10e-9 * (c.a / 6378137.0) * std::fmax(1.0, ok_) + 1e-14 * c.a) / rc;   // same absolute budget as the positions
         if (!(std::fabs(c11::dbl(Q(k) - w.k)) <= krel * ok_)) bad("closed-form-k", "scale " + num(k) + " vs closed form " + c11::qstr(w.k) + " (relative tolerance " + num(krel) + ")");
         double og = c11::dbl(w.gamma), dg = c11::dbl(Q(g) - w.gamma); if (edge || std::fabs(og) == 180) dg = std::fabs(std::fabs(g) - std::fabs(og));
         if (!(std::fabs(dg) <= 1e-12 * std::fmax(1.0, std::fabs(og)) + krel / Math::degree())) bad("closed-form-gamma", "convergence " + num(g) + " vs closed form " + c11::qstr(w.gamma));
@@ -168,7 +168,9 @@ static Reg r_pt("pt", [](const Args& a) {
     double dist = (double)hypotl(dN, dE), tol = tol_ground(c, R, k), distp = (double)hypotl(dN * kns, dE * kew), tolp = tol_plane(c, R, 1.0);
     if (!(dist <= tol || distp <= tolp)) bad("reverse-forward", "Reverse(Forward(" + num(lat) + ", " + num(lon) + ")) = (" + num(rlat) + ", " + num(rlon) + "), off by " + num(dist) + " m on the ground (" + num(distp) + " m in the plane), tolerance " + num(tol) + " (" + num(tolp) + ")");
     if (std::cos(lat * Math::degree()) > 1e-3 && R < 1e3 * c.a) {
-      if (!(std::fabs(rk - k) <= 1e-9 * k)) bad("reverse-forward-k", "k from Reverse " + num(rk) + " vs Forward " + num(k));
+      // k ~ 1/cos(lat): a latitude error within the closure tolerance changes it by tan(lat) * dlat
+      double tk = 1e-9 + std::fabs(std::tan(lat * Math::degree())) * tol / c.a;
+      if (!(std::fabs(rk - k) <= tk * k)) bad("reverse-forward-k", "k from Reverse " + num(rk) + " vs Forward " + num(k));
       double dg = std::fabs(Math::AngDiff(g, rg)); if (!(dg <= 1e-9)) bad("reverse-forward-gamma", "gamma from Reverse " + num(rg) + " vs Forward " + num(g));
     }
     if (!(std::fabs(rlon) <= 180)) bad("reverse-lon-range", "lon = " + num(rlon));
@@ -254,7 +256,7 @@ static Reg r_cfg("cfgprops", [](const Args& a) {
       if (!P.polar && !(std::fabs(lat0 - ol) <= 4 * 4.5e-14 * gflat(c) + 4 * ulp(lat0))) bad("origin-latitude", "OriginLatitude " + num(lat0) + " vs latitude of minimum scale " + num(ol));
       if (std::fabs(lat0) < 90) {
         double x, y, g, k; o.Fwd(true, 7, lat0, 7, x, y, g, k);
-        if (!(std::hypot(x, y) <= tol_plane(c, 0, k))) bad("origin-maps-to-zero", "Forward(lat0) = (" + num(x) + ", " + num(y) + ")");
+        if (!(std::hypot(x, y) <= tol_plane(c, 0, std::fmax(k, 1 / k)))) bad("origin-maps-to-zero", "Forward(lat0) = (" + num(x) + ", " + num(y) + ")");
         if (!(std::fabs(k - o.k0()) <= 1e-12 * k)) bad("central-scale", "k(lat0) = " + num(k) + " but CentralScale = " + num(o.k0()));
       }
     }
